@@ -275,6 +275,77 @@ fn parse_event(case: &Value, text: &str, parsed: &Outcome<Components>, events: &
     ev
 }
 
+/// fields of a printed line: ["i", n] integer, ["n", P, d] decimal number, ["s", text]
+fn line_fields(line: &str) -> Value {
+    let mut it = line.splitn(2, '#');
+    let body = it.next().unwrap_or("");
+    let comment = it.next().map(|c| c.trim().to_string());
+    let fields: Vec<Value> = body
+        .split(',')
+        .map(|f| f.trim())
+        .map(|f| {
+            if let Ok(n) = f.parse::<i64>() {
+                json!(["i", n])
+            } else if let Some((p, d)) = lex::printed(f) {
+                json!(["n", p, d])
+            } else {
+                json!(["s", f])
+            }
+        })
+        .collect();
+    json!({"f": fields, "cm": comment.map(|c| flat::comment_class(&c)).unwrap_or_default()})
+}
+
+/// RoundTrip event: components and factors written with the library's Display and read back
+fn roundtrip_event(case: &Value, c: &Components, f: &Factors) -> (Value, Option<(Components, Factors)>) {
+    let q = 4;
+    let metaj = |m: &Vec<Meta>| Value::Array(m.iter().map(|x| json!([x.key, x.value])).collect());
+    let mut ev = json!({"ev": "RoundTrip", "case": case["case"], "tag": "roundtrip", "q": q});
+    let text = match catch_unwind(AssertUnwindSafe(|| c.to_string())) {
+        Ok(t) => t,
+        Err(_) => {
+            ev["out"] = fail("display", "Panic", "");
+            return (ev, None);
+        }
+    };
+    let lines: Vec<Value> = text.lines().filter(|l| !l.trim().is_empty() && !l.trim().starts_with('#')).map(line_fields).collect();
+    let orig = flat::abs_of_components(c);
+    ev["comps"] = json!({"orig": Value::Array(orig.iter().map(|x| x.to_json(q)).collect()), "lines": lines, "meta": metaj(&c.meta)});
+    let c2 = guarded(|| text.parse::<Components>());
+    let mut c2ok = None;
+    ev["comps"]["re"] = match c2 {
+        Outcome::Ok(c2) => {
+            let a = flat::abs_of_components(&c2);
+            let j = json!({"ok": true, "data": Value::Array(a.iter().map(|x| x.to_json(q)).collect()), "meta": metaj(&c2.meta)});
+            c2ok = Some(c2);
+            j
+        }
+        Outcome::Err(k, m) => fail("reparse", k, &m),
+        Outcome::Panic(m) => fail("reparse", "Panic", &m),
+    };
+    let ftext = f.to_string();
+    let (fj, _, _) = factors_json(f);
+    let fcm = |f: &Factors| Value::Array(f.wdata.iter().map(|x| json!(x.comment)).collect());
+    ev["fac"] = json!({"orig": fj, "meta": metaj(&f.wmeta), "cm": fcm(f)});
+    let f2 = guarded(|| ftext.parse::<Factors>());
+    let mut f2ok = None;
+    ev["fac"]["re"] = match f2 {
+        Outcome::Ok(f2) => {
+            let j = json!({"ok": true, "list": factors_json(&f2).0, "meta": metaj(&f2.wmeta), "cm": fcm(&f2)});
+            f2ok = Some(f2);
+            j
+        }
+        Outcome::Err(k, m) => fail("reparse-factors", k, &m),
+        Outcome::Panic(m) => fail("reparse-factors", "Panic", &m),
+    };
+    ev["out"] = json!({"ok": true});
+    let re = match (c2ok, f2ok) {
+        (Some(a), Some(b)) => Some((a, b)),
+        _ => None,
+    };
+    (ev, re)
+}
+
 /// an input that fails before any evaluation still yields one event per run of the history,
 /// so that the histories keep their shape in the trace
 fn fail_all(case: &Value, out: &mut dyn Write, o: Value) {
@@ -415,6 +486,13 @@ fn run_case1(case: &Value, out: &mut dyn Write, forced: Option<(i32, i32, f64)>)
             return None;
         }
     };
+    // ---- save / reload through the tool's own text format (C18)
+    let mut reloaded: Option<(Components, Factors)> = None;
+    if case.get("roundtrip").and_then(|x| x.as_bool()).unwrap_or(false) {
+        let (ev, re) = roundtrip_event(case, &base, &fac0);
+        writeln!(out, "{}", ev).ok();
+        reloaded = re;
+    }
     let default_runs = vec![json!({"tag": "base"})];
     let runs = case["runs"].as_array().unwrap_or(&default_runs);
     // ---- first pass: inputs of every run and the common logging exponent of the case
@@ -434,7 +512,11 @@ fn run_case1(case: &Value, out: &mut dyn Write, forced: Option<(i32, i32, f64)>)
         let kexp_v = run.get("kexp").unwrap_or(&case["kexp"]).clone();
         let area_v = run.get("area").unwrap_or(&case["area"]).clone();
         let lm = run.get("lm").and_then(|x| x.as_bool()).unwrap_or(case["lm"].as_bool().unwrap_or(false));
-        let comps = apply_run(&base, run);
+        let is_reload = run.get("reload").and_then(|x| x.as_bool()).unwrap_or(false);
+        if is_reload && reloaded.is_none() {
+            continue;
+        }
+        let comps = if is_reload { reloaded.as_ref().unwrap().0.clone() } else { apply_run(&base, run) };
         if run.get("scale").is_some() {
             // the properties quantify over values that are zero or >= 0.01 kWh: a scaling that takes a
             // non-zero value below that is not a valid transform of this input (no event)
@@ -444,7 +526,7 @@ fn run_case1(case: &Value, out: &mut dyn Write, forced: Option<(i32, i32, f64)>)
                 continue;
             }
         }
-        let mut fac = fac0.clone();
+        let mut fac = if is_reload { reloaded.as_ref().unwrap().1.clone() } else { fac0.clone() };
         let mut strip_panic = None;
         if run.get("strip").and_then(|x| x.as_bool()).unwrap_or(false) {
             match catch_unwind(AssertUnwindSafe(|| fac.clone().strip(&comps))) {
@@ -761,6 +843,60 @@ fn main() {
                         std::process::exit(2);
                     }
                 }
+            }
+        }
+        "flatjson" => {
+            // results written by the real program (--json), flattened like the library's results; the
+            // events of one case share the exponents of its first event
+            let mut forced: Option<(Value, i32, i32, f64)> = None;
+            for line in stdin.lock().lines() {
+                let line = match line {
+                    Ok(l) => l,
+                    Err(_) => break,
+                };
+                if line.trim().is_empty() {
+                    continue;
+                }
+                let c: Value = match serde_json::from_str(&line) {
+                    Ok(c) => c,
+                    Err(_) => continue,
+                };
+                let mut ev = json!({"ev": "Eval", "case": c["case"], "tag": c["tag"], "cli": true});
+                let txt = c["json"].as_str().and_then(|p| std::fs::read_to_string(p).ok());
+                let ep = txt.as_ref().and_then(|t| serde_json::from_str::<EnergyPerformance>(t).ok());
+                match (c["exit"].as_i64(), ep) {
+                    (Some(0), Some(ep)) => {
+                        let ac = flat::abs_of_components(&ep.components);
+                        let maxf = ep.wfactors.wdata.iter().fold(1.0f64, |m, f| m.max(f.ren.abs() as f64).max(f.nren.abs() as f64));
+                        let sum_in: f64 = ac.iter().filter(|c| c.kind != "OUT").map(|c| c.v.iter().map(|x| x.abs()).sum::<f64>()).sum();
+                        let mut s = (sum_in * maxf).max(1.0);
+                        let mut p = exponent(s);
+                        let mut pm = exponent(s / (ep.arearef as f64).max(1e-9));
+                        match &forced {
+                            Some((case, fp, fpm, fs)) if *case == c["case"] => {
+                                p = *fp;
+                                pm = *fpm;
+                                s = *fs;
+                            }
+                            _ => forced = Some((c["case"].clone(), p, pm, s)),
+                        }
+                        let f = flat::flat_ep_unit(&ep, p, pm, 1.0);
+                        let mut fk: Vec<&String> = f.tkeys.iter().filter(|k| k.ends_with(".f_match")).collect();
+                        fk.sort();
+                        ev["N"] = json!(ep.components.data.first().map(|e| e.num_steps()).unwrap_or(0));
+                        ev["p"] = json!(p);
+                        ev["pm"] = json!(pm);
+                        ev["q"] = json!(2);
+                        ev["mag"] = json!((s * 10f64.powi(p)).ceil() as i64);
+                        ev["magm"] = json!((s / (ep.arearef as f64).max(1e-9) * 10f64.powi(pm)).ceil() as i64);
+                        ev["comps"] = Value::Array(ac.iter().map(|c| c.to_json(2)).collect());
+                        ev["out"] = json!({"ok": true, "fkeys": fk, "flat": f.m});
+                    }
+                    (code, _) => {
+                        ev["out"] = json!({"ok": false, "stage": "cli", "err": format!("Exit{}", code.unwrap_or(-1))});
+                    }
+                }
+                writeln!(out, "{}", ev).ok();
             }
         }
         "lexfiles" => {
